@@ -519,28 +519,93 @@ Proof.
   simpl in H. rewrite app_nil_r in H. exact H.
 Qed.
 
-(* the statement the property asks for: no proviso about WHICH request a fault hits *)
+(* the hypothesis of the property's sentence, nothing else: every operation's plan holds transient faults only, at most
+   max_retries of them -- whichever operation it is (a CAS write too), whichever request they hit *)
+Definition plans_budget (budget : nat) (plans : list fplan) : Prop :=
+  Forall (fun pl => plan_transient pl /\ nfaults_f pl <= budget) plans.
+
+Lemma plans_budgetb_sound : forall budget plans, plans_budgetb budget plans = true -> plans_budget budget plans.
+Proof.
+  induction plans as [|pl plans IH]; intro H; [constructor|]. cbn [plans_budgetb] in H. apply andb_true_iff in H. destruct H as [H1 H2].
+  unfold op_plan_budgetb in H1. apply andb_true_iff in H1. destruct H1 as [Ht Hn].
+  constructor; [split; [apply plan_transientb_sound; exact Ht|apply Nat.leb_le; exact Hn]|apply IH; exact H2].
+Qed.
+
+(* the statement the property asks for: "transient S3 errors within the retry budget are masked without changing results" *)
 Definition s3_faulty_masks_full : Prop :=
+  forall (page : nat) (raw_prefix : str) (F : bucket) (ops : list (op key)) (plans : list fplan),
+  foreign_ok (gen_init_prefix raw_prefix) F -> Forall wf_op ops -> plans_budget gen_max_retries plans ->
+  run_s3_f page raw_prefix F ops plans = map inl (run_spec ops).
+
+(* ... weakened by ONE of the two provisos of s3_faulty_masks_partial at a time: each is still false *)
+(* (a) CAS writes fault-free, any request of the other operations may fail *)
+Definition s3_faulty_masks_full_modulo_cas : Prop :=
   forall (page : nat) (raw_prefix : str) (F : bucket) (ops : list (op key)) (plans : list fplan),
   foreign_ok (gen_init_prefix raw_prefix) F -> Forall wf_op ops -> plans_within gen_max_retries ops plans ->
   run_s3_f page raw_prefix F ops plans = map inl (run_spec ops).
+(* (b) the request with index max_retries of every operation answered, CAS writes like every other operation *)
+Definition s3_faulty_masks_full_modulo_last_attempt : Prop :=
+  forall (page : nat) (raw_prefix : str) (F : bucket) (ops : list (op key)) (plans : list fplan),
+  foreign_ok (gen_init_prefix raw_prefix) F -> Forall wf_op ops -> plans_budget gen_max_retries plans ->
+  Forall (fun pl => nth gen_max_retries pl None = None) plans ->
+  run_s3_f page raw_prefix F ops plans = map inl (run_spec ops).
 
-(* read_file("x") on an empty table: max_retries answered requests (each a not-found, retried), then ONE transient
+(* witness 1: read_file("x") on an empty table: max_retries answered requests (each a not-found, retried), then ONE transient
    error on the next request: the transient error surfaces -- the local backend answers not-found *)
 Definition refute_ops : list (op key) := [Read [lit "x"]].
 Definition refute_plans : list fplan := [repeat None gen_max_retries ++ [Some (FBefore, ClientError (lit "SlowDown"))]].
+(* witness 2: write, then the CAS writer on the same key: its tag read is answered, ONE transient error on the conditional
+   PUT (not under the retry): it surfaces -- every plan has a single fault, none at index max_retries *)
+Definition refute_cas_ops : list (op key) := [Write [lit "x"] (lit "old"); WriteCas [lit "x"] (lit "new")].
+Definition refute_cas_plans : list fplan := [[]; [None; Some (FBefore, ClientError (lit "SlowDown"))]].
 
 Lemma refute_within : plans_within gen_max_retries refute_ops refute_plans.
 Proof. apply plans_withinb_sound. vm_compute. reflexivity. Qed.
+Lemma refute_budget : plans_budget gen_max_retries refute_plans.
+Proof. apply plans_budgetb_sound. vm_compute. reflexivity. Qed.
+Lemma refute_cas_budget : plans_budget gen_max_retries refute_cas_plans.
+Proof. apply plans_budgetb_sound. vm_compute. reflexivity. Qed.
+Lemma refute_run : run_s3_f 2 [] [] refute_ops refute_plans = [inr (ClientError (lit "SlowDown"))].
+Proof. vm_compute. reflexivity. Qed.
+Lemma refute_cas_run : run_s3_f 2 [] [] refute_cas_ops refute_cas_plans = [inl OUnit; inr (ClientError (lit "SlowDown"))].
+Proof. vm_compute. reflexivity. Qed.
+Lemma refute_wf : Forall wf_op refute_ops.
+Proof. repeat constructor; vm_compute; try reflexivity; discriminate. Qed.
+Lemma refute_cas_wf : Forall wf_op refute_cas_ops.
+Proof. apply wf_opsb_sound. vm_compute. reflexivity. Qed.
 
 Theorem s3_faulty_masks_refuted : ~ s3_faulty_masks_full.
 Proof.
-  intro H. specialize (H 2 [] [] refute_ops refute_plans).
-  assert (run_s3_f 2 [] [] refute_ops refute_plans = [inr (ClientError (lit "SlowDown"))]) as E by (vm_compute; reflexivity).
-  rewrite E in H. discriminate H.
+  intro H. specialize (H 2 [] [] refute_ops refute_plans). rewrite refute_run in H. discriminate H.
   - intros k [].
-  - repeat constructor; vm_compute; try reflexivity; discriminate.
+  - exact refute_wf.
+  - exact refute_budget.
+Qed.
+
+(* the same statement refuted by the CAS witness alone (no key that holds nothing is touched) *)
+Theorem s3_faulty_masks_refuted_by_cas : ~ s3_faulty_masks_full.
+Proof.
+  intro H. specialize (H 2 [] [] refute_cas_ops refute_cas_plans). rewrite refute_cas_run in H. discriminate H.
+  - intros k [].
+  - exact refute_cas_wf.
+  - exact refute_cas_budget.
+Qed.
+
+Theorem s3_faulty_masks_modulo_cas_refuted : ~ s3_faulty_masks_full_modulo_cas.
+Proof.
+  intro H. specialize (H 2 [] [] refute_ops refute_plans). rewrite refute_run in H. discriminate H.
+  - intros k [].
+  - exact refute_wf.
   - exact refute_within.
+Qed.
+
+Theorem s3_faulty_masks_modulo_last_attempt_refuted : ~ s3_faulty_masks_full_modulo_last_attempt.
+Proof.
+  intro H. specialize (H 2 [] [] refute_cas_ops refute_cas_plans). rewrite refute_cas_run in H. discriminate H.
+  - intros k [].
+  - exact refute_cas_wf.
+  - exact refute_cas_budget.
+  - repeat constructor.
 Qed.
 
 (* write_file_cas is not under the retry: an error on its conditional PUT surfaces with that one request -- not masked,
